@@ -10,6 +10,10 @@ COUNTS = {"quick": 700, "thorough": 30000}
 SHARD = 90
 READY = False
 
+# False while the model copies the pinned upstream Get (a value listed twice returns its bucket twice);
+# True once fix F16 is in /repo. consts() re-derives it from the Go source on every run.
+DEDUP = False
+
 KEYS = [1, 2, 3, 4, 5, 6, 7, 300, 4000000000]
 AV = [0, 1, 2, 3]
 BV = [0, 1, 2, 3, 4, 5]
@@ -71,18 +75,22 @@ def gen_row(rng, k=None):
     return [k if k is not None else rng.choice(KEYS), rng.choice(AV), rng.choice(BV), rng.choice(CV)]
 
 
+def gen_leaf_idx(rng, dup_ok):
+    i = rng.randrange(2)
+    n = rng.choice([0, 1, 1, 1, 2, 2, 3])
+    dom = AV if i == 0 else BV
+    vs = [rng.choice(dom) for _ in range(n)]
+    if not dup_ok:
+        vs = list(dict.fromkeys(vs))
+    if rng.random() < 0.05:
+        vs.append(9)
+    return {"k": "idx", "i": i, "vs": vs}
+
+
 def gen_leaf(rng, view, dup_ok):
     x = rng.random()
     if x < 0.45:
-        i = rng.randrange(2)
-        n = rng.choice([0, 1, 1, 1, 2, 2, 3])
-        dom = AV if i == 0 else BV
-        vs = [rng.choice(dom) for _ in range(n)]
-        if not dup_ok:
-            vs = list(dict.fromkeys(vs))
-        if rng.random() < 0.05:
-            vs.append(9)
-        return {"k": "idx", "i": i, "vs": vs}
+        return gen_leaf_idx(rng, dup_ok)
     if x < 0.7:
         ks = rng.sample(KEYS, rng.choice([0, 1, 2, 3, 4, 5]))
         if rng.random() < 0.1 and ks and dup_ok:
@@ -112,13 +120,13 @@ def has_idx(f):
     return f["k"] == "idx" or any(has_idx(c) for c in f.get("fs", []))
 
 
-def gen_filter(rng, view, stats, dup_ok):
-    """a tree of depth <= 3 that is not constant on the rows of the view (6 tries); most contain an index leaf"""
+def gen_filter(rng, view, stats, dup_ok, need_idx=False):
+    """a tree of depth <= 3 that is not constant on the rows of the view (8 tries); most contain an index leaf"""
     f = None
-    for _ in range(6):
+    for _ in range(8):
         f = gen_tree(rng, view, 3, dup_ok)
-        if not has_idx(f) and rng.random() < 0.7:
-            continue
+        if not has_idx(f) and (need_idx or rng.random() < 0.7):
+            f = {"k": rng.choice(["and", "or"]), "fs": [f, gen_leaf_idx(rng, dup_ok)]}
         vals = {holds(f, r) for r in view.values()}
         if len(vals) == 2:
             stats["nonconst"] = stats.get("nonconst", 0) + 1
@@ -127,7 +135,7 @@ def gen_filter(rng, view, stats, dup_ok):
     return f
 
 
-def gen_case(rng, tier="quick", dup_ok=False, cross_ok=False):
+def gen_case(rng, tier="quick", dup_ok=True, cross_p=0.02):
     mode = rng.randrange(2)
     seed = []
     for k in rng.sample(KEYS, rng.choice([0, 0, 2, 3, 4, 6])):
@@ -135,12 +143,16 @@ def gen_case(rng, tier="quick", dup_ok=False, cross_ok=False):
     sim = Sim(seed)
     ops = []
     stats = {}
-    n = rng.randrange(6, 26)
+    n = rng.randrange(6, 24)
+    ntx = rng.choice([0, 1, 1, 2, 2, 2, 3, 3])
+    begun = 0
     malformed = rng.random() < 0.12
-    while len(ops) < n:
+    guard = 0
+    while len(ops) < n and guard < 400:
+        guard += 1
         x = rng.random()
         open_t = sorted(sim.txs)
-        t = rng.choice(open_t + [0]) if open_t and rng.random() < 0.8 else 0
+        t = rng.choice(open_t) if open_t and rng.random() < 0.75 else 0
         if malformed and rng.random() < 0.1:
             t = rng.choice([1, 2, 3, 4])          # possibly not open: the op must be skipped
             if t not in sim.txs:
@@ -148,25 +160,30 @@ def gen_case(rng, tier="quick", dup_ok=False, cross_ok=False):
                             "rows": [gen_row(rng)], "f": {"k": "idx", "i": 0, "vs": [1]}})
                 continue
         view = sim.view(t)
-        if x < 0.10 and len(sim.txs) < 3:
+        if x < 0.14:
+            if begun >= ntx + 1 or len(sim.txs) >= 3:
+                continue
             nt = rng.choice([i for i in (1, 2, 3) if i not in sim.txs])
             sim.txs[nt] = {}
+            begun += 1
             ops.append({"op": "begin", "t": nt})
-        elif x < 0.27:
+        elif x < 0.31:
             rows = []
             for _ in range(rng.choice([1, 1, 2, 3])):
                 r = gen_row(rng)
+                if view and rng.random() < 0.3:
+                    r[0] = rng.choice(list(view))
                 rows.append(r)
             for r in rows:
                 sim.write(t, r[0], list(r))
             ops.append({"op": "create", "t": t, "rows": rows})
-        elif x < 0.40:
+        elif x < 0.44:
             k = rng.choice(list(view) or KEYS) if rng.random() < 0.9 else rng.choice(KEYS)
             a = rng.choice(AV + [-1])
             b = rng.choice(BV + [-1])
             c = rng.choice(CV + [-1, -1])
             if rng.random() < 0.2:
-                f = gen_filter(rng, view, stats, dup_ok)
+                f = gen_filter(rng, view, stats, dup_ok, need_idx=True)
                 tgt = [r for r in view.values() if holds(f, r)]
                 o = {"op": "update", "t": t, "f": f, "a": a, "b": b, "c": c}
             else:
@@ -176,7 +193,7 @@ def gen_case(rng, tier="quick", dup_ok=False, cross_ok=False):
                 r2 = [r[0], a if a >= 0 else r[1], b if b >= 0 else r[2], c if c >= 0 else r[3]]
                 sim.write(t, r[0], r2)
             ops.append(o)
-        elif x < 0.50:
+        elif x < 0.53:
             if rng.random() < 0.25:
                 f = gen_filter(rng, view, stats, dup_ok)
                 tgt = [r[0] for r in view.values() if holds(f, r)]
@@ -190,41 +207,53 @@ def gen_case(rng, tier="quick", dup_ok=False, cross_ok=False):
                 if k in view:
                     sim.write(t, k, None)
             ops.append(o)
-        elif x < 0.72:
+        elif x < 0.74:
+            # queries prefer a transaction that has pending writes
+            wt = [u for u in open_t if sim.txs[u]]
+            if wt and rng.random() < 0.6:
+                t = rng.choice(wt)
+                view = sim.view(t)
             ops.append({"op": "query", "t": t, "f": gen_filter(rng, view, stats, dup_ok)})
-        elif x < 0.78:
+        elif x < 0.80:
             o = {"op": "oquery", "t": t, "dir": rng.randrange(2),
                  "cur": rng.choice([None, None] + BV + [-1, 6]), "lim": 0, "f": None}
-            if rng.random() < 0.6:
+            y = rng.random()
+            if y < 0.55:
                 o["lim"] = rng.choice([1, 2, 3, 5])
-            elif rng.random() < 0.5:
+            elif y < 0.8:
                 o["f"] = gen_filter(rng, view, stats, dup_ok)
+            elif y < 0.9:
+                o["f"] = gen_filter(rng, view, stats, dup_ok)
+                o["lim"] = rng.choice([1, 2, 3])
             ops.append(o)
-        elif x < 0.86:
+        elif x < 0.88:
             if not open_t:
                 continue
             t = rng.choice(open_t)
             others = [u for u in open_t if u != t]
-            if cross_ok and others and rng.random() < 0.3:
-                u = rng.choice(others)
-                # u commits inside t's commit (between t's kv commit and t's flush)
-                tw, uw = sim.txs[t], sim.txs[u]
+            u = rng.choice(others) if others and rng.random() < 0.35 else None
+            if u is not None:
+                overlap = set(sim.txs[t]) & set(sim.txs[u])
+                if overlap and rng.random() >= cross_p:
+                    u = None
+            if u is not None:
+                # u commits inside t's commit (between t's kv commit and t's index flush)
                 sim.commit(t)
                 sim.commit(u)
                 ops.append({"op": "commit2", "t": t, "u": u})
             else:
                 sim.commit(t)
                 ops.append({"op": "commit", "t": t})
-        elif x < 0.91:
+        elif x < 0.92:
             if not open_t:
                 continue
             t = rng.choice(open_t)
             sim.txs.pop(t)
             ops.append({"op": "abort", "t": t})
-        elif x < 0.94:
+        elif x < 0.935:
             sim.txs.clear()
             ops.append({"op": "reopen"})
-        elif x < 0.99:
+        elif x < 0.985:
             chs = []
             for _ in range(rng.choice([1, 1, 2, 3])):
                 if rng.random() < 0.7:
@@ -240,7 +269,7 @@ def gen_case(rng, tier="quick", dup_ok=False, cross_ok=False):
             ops.append({"op": "repl", "chs": chs})
         else:
             i = rng.randrange(2)
-            vs = [rng.choice(AV if i == 0 else BV) for _ in range(rng.choice([0, 1, 2]))]
+            vs = [rng.choice(AV if i == 0 else BV) for _ in range(rng.choice([0, 1, 2, 3]))]
             if not dup_ok:
                 vs = list(dict.fromkeys(vs))
             ops.append({"op": "get", "t": t, "i": i, "vs": vs})
@@ -253,7 +282,7 @@ def gen_case(rng, tier="quick", dup_ok=False, cross_ok=False):
             sim.txs.pop(t)
             ops.append({"op": "abort", "t": t})
     for _ in range(2):
-        ops.append({"op": "query", "t": 0, "f": gen_filter(rng, sim.view(0), stats, dup_ok)})
+        ops.append({"op": "query", "t": 0, "f": gen_filter(rng, sim.view(0), stats, dup_ok, need_idx=True)})
     return {"mode": mode, "seed": seed, "ops": ops, "avals": AV, "bvals": BV, "gstats": stats}
 
 
@@ -397,8 +426,8 @@ def to_coq(case, r):
         steps.append("(%s, IOutD %s %s %s %s %s)" % (c_op(o), cN(x["e"]), c_rq(x.get("qi")), c_rq(x.get("qs")), g,
                                                      c_pdelta(prev, x["p"])))
         prev = x["p"]
-    return "(CaseT %s %s %s %s %s %s)" % (
-        cbool(case["mode"] == 1), c_rows(case["seed"]),
+    return "(CaseT %s %s %s %s %s %s %s)" % (
+        cbool(case["mode"] == 1), cbool(DEDUP), c_rows(case["seed"]),
         clist([cZ(v) for v in case["avals"]]), clist([cZ(v) for v in case["bvals"]]),
         c_probe(r["p0"]), clist(steps))
 
@@ -407,3 +436,164 @@ def harness_violation(case, r):
     if r.get("panic"):
         return "panic: " + r["panic"]
     return None
+
+
+# ----------------------------------------------------------------------------- plug-in hooks
+def _writes(case):
+    """per commit2 op: do the two transactions write a common key? (bookkeeping only)"""
+    w = {}
+    hits = []
+    for o in case["ops"]:
+        t = o.get("t", 0)
+        k = o["op"]
+        if k == "begin":
+            w[t] = None if t in w and w[t] is None else set()
+            w[t] = set()
+        elif k in ("create",) and t in w:
+            w[t] |= {r[0] for r in o["rows"]}
+        elif k == "update" and t in w:
+            w[t] |= {o["kk"]} if not o.get("f") else set(KEYS)
+        elif k == "delete" and t in w:
+            w[t] |= set(o["ks"]) if not o.get("f") else set(KEYS)
+        elif k in ("commit", "abort"):
+            w.pop(t, None)
+        elif k == "reopen":
+            w.clear()
+        elif k == "commit2":
+            a, b = w.pop(t, None), w.pop(o["u"], None)
+            if a is not None and b is not None and a & b:
+                hits.append(sorted(a & b))
+    return hits
+
+
+def _walk(f):
+    yield f
+    for c in f.get("fs", []) or []:
+        yield from _walk(c)
+
+
+def _filters(case):
+    for o in case["ops"]:
+        if o.get("f") and o["op"] in ("query", "oquery", "update", "delete"):
+            yield o["f"]
+
+
+def tags(case, r):
+    t = set()
+    if _writes(case):
+        t.add("crossed_commit_flush")
+    return t
+
+
+def nontrivial(case, r):
+    """a transaction that wrote, an index leaf queried inside it while the writes were pending, a
+    commit or abort, indexed values that collide and a non-empty answer"""
+    ops = case["ops"]
+    wrote = set()
+    q_in_tx = False
+    ends = 0
+    for o in ops:
+        t = o.get("t", 0)
+        if o["op"] in ("create", "update", "delete") and t:
+            wrote.add(t)
+        if o["op"] == "query" and t in wrote and has_idx(o["f"]):
+            q_in_tx = True
+        if o["op"] in ("commit", "abort", "commit2"):
+            ends += 1
+    if len(wrote) < 1 or ends < 1 or not q_in_tx:
+        return False
+    collide = any(len(x) > 2 for o in r["outs"] for x in (o["p"].get("lf") or []))
+    answered = any((o.get("qi") or {}).get("r") for o in r["outs"])
+    return collide and answered
+
+
+def histogram(case, r):
+    ks = ["mode=%d" % case["mode"], "seed_rows=%d" % len(case["seed"])]
+    for o in case["ops"]:
+        ks.append("op=" + o["op"] + ("_filter" if o["op"] in ("update", "delete") and o.get("f") else ""))
+        if o["op"] in ("query", "oquery") and o.get("t"):
+            ks.append("query_in_tx")
+    for f in _filters(case):
+        d = 0
+
+        def depth(x):
+            return 1 + max([depth(c) for c in x.get("fs", [])] or [0])
+        ks.append("filter_depth=%d" % depth(f))
+        for n in _walk(f):
+            ks.append("node=" + n["k"])
+    g = case.get("gstats") or {}
+    ks += ["filter_nonconstant"] * g.get("nonconst", 0) + ["filter_constant"] * g.get("const", 0)
+    for o, x in zip(case["ops"], r["outs"]):
+        if x.get("e") == 3:
+            ks.append("skipped_op")
+        if x.get("e") == 1:
+            ks.append("notfound")
+    if _writes(case):
+        ks.append("nested_commit_overlapping_writes")
+    wr = {o.get("t") for o in case["ops"] if o["op"] in ("create", "update", "delete") and o.get("t")}
+    ks.append("writing_txs=%d" % len(wr))
+    return ks
+
+
+def neighbours(case, rng):
+    out = []
+    for i in range(len(case["ops"])):
+        c = json.loads(json.dumps(case))
+        del c["ops"][i]
+        out.append(c)
+    # append index queries for every single value, committed and inside every transaction
+    for i, dom in ((0, AV), (1, BV)):
+        c = json.loads(json.dumps(case))
+        for v in dom:
+            c["ops"].append({"op": "query", "t": 0, "f": {"k": "idx", "i": i, "vs": [v]}})
+            c["ops"].append({"op": "query", "t": 0, "f": {"k": "not", "fs": [{"k": "idx", "i": i, "vs": [v]}]}})
+        out.append(c)
+    c = json.loads(json.dumps(case))
+    c["mode"] = 1 - c["mode"]
+    out.append(c)
+    return out
+
+
+def fixup(case):
+    return case
+
+
+def model_dump(case, r):
+    t = to_coq(case, r)
+    return coq_print(PID, COQ_IMPORTS, "Definition c := %s.\nEval vm_compute in where_diff c.\n"
+                     "Eval vm_compute in model_dump c." % t)[-8000:]
+
+
+def consts(repo):
+    """Generated/Consts_C17.v: does Get skip a value that is listed twice? (fix F16)"""
+    import os
+    import re
+    src = open(os.path.join(repo, "x/go/gorp/index.go")).read()
+    n = len(re.findall(r"slices\.Contains\(values\[:i\], v\)", src))
+    global DEDUP
+    DEDUP = n >= 2
+    return ("(* generated from x/go/gorp/index.go on every run *)\n"
+            "Definition get_skips_repeated_values : bool := %s.\n" % cbool(DEDUP))
+
+
+RULE = ("histories of 6-26 ops over begin/create/update(key|filter)/delete(keys|filter)/query/ordered query/commit/"
+        "nested commit/abort/reopen/replicated write/Get on a 4-column entry (key, lookup-indexed a in 0..3, "
+        "sorted-indexed b in 0..5, payload c) over 9 keys, up to 3 interleaved transactions plus direct DB use, both "
+        "observer wirings; filter trees of depth <= 3 over keys/pred/idx/and/or/not re-drawn until non-constant on "
+        "the reader's current view (share reported). Non-trivial = a writing transaction, an index-leaf query "
+        "inside it while its writes are pending, a commit or abort, a lookup bucket with >=2 keys and a non-empty "
+        "answer; distinct by hash.")
+TRUSTED = ["hook x/go/gorp/export_verif.go (VerifDump: read-only copies of forward/reverse/entries and the number of "
+           "live per-tx deltas)",
+           "harness drives the real gorp.Table/LookupIndex/SortedIndex over memkv (pebble in-memory); nested commit "
+           "is produced through the kv store's own synchronous observer (public API)"]
+ASSUMES = ["filters have at most 12 children per And/Or (Go's SortFunc is stable only up to 12 elements)",
+           "no populate failure, no raw/prefix filters, no offset, no validators",
+           "every write of a gorp transaction goes through the table's writers (staging)"]
+PARTIAL = None
+TECHNIQUE = ("Coq proof (index invariants, binary-search correctness, delta merge spec, structural induction over filter "
+             "trees, refinement of the index machinery to a table+write-set specification over all histories) + "
+             "model/impl correspondence by vm_compute")
+DESIGN_REF = "DESIGN.md §8 C17"
+LEVEL_TEXT = ""
+LEVEL_NOTE = ""
